@@ -656,6 +656,27 @@ func (c *ctx) joinCase() {
 	val("same", cp(), key, jt, jeui, dn)
 	val("key", cp(), flipKey(key, c.rnd.Intn(128)), jt, jeui, dn)
 	val("key-twin", cp(), weakTwin(c, key), jt, jeui, dn) // another key that equals this one under a weak digest
+	if !isJA {
+		// the request as a RECEIVED frame whose reserved MHDR bits are set (a sender of a later revision): the MIC covers
+		// the byte as received, for validation and for a MIC the library sets on that frame value
+		if bb, err := phy.MarshalBinary(); err == nil && len(bb) > 5 {
+			bb[0] |= byte(1+c.rnd.Intn(7)) << 2
+			rx := &lorawan.PHYPayload{}
+			if rx.UnmarshalBinary(bb) == nil {
+				e := M{"ev": "joinmic", "op": "validate", "label": "wire-mhdr-rfu", "key": bs(key[:]), "raw": bs(bb)}
+				var ok bool
+				r, _ := observeFast(func() error {
+					var err error
+					ok, err = rx.ValidateUplinkJoinMIC(key)
+					return err
+				})
+				e["err"], e["ok"], e["frame"] = r, ok, phyToVal(rx)
+				c.emit(e)
+				r2, _ := observeFast(func() error { return rx.SetUplinkJoinMIC(key) })
+				c.emit(M{"ev": "joinmic", "op": "set", "key": bs(key[:]), "err": r2, "frame": phyToVal(rx), "raw": bs(bb)})
+			}
+		}
+	}
 	ph := cp()
 	ph.MIC[c.rnd.Intn(4)] ^= 1 << uint(c.rnd.Intn(8))
 	val("mic", ph, key, jt, jeui, dn)
